@@ -106,7 +106,7 @@ def run(ctx):
     cases = cliprops.gen_cases(ctx, ctx.n(200, 6000), {"retention": 0, "remediation": "disabled"},
                                {"p_fail": 0.4, "p_partial": 0.25, "extra_iters": 6})
     res, failing = cliprops.run_and_eval(ctx, cases, "c07_case", "c07")
-    sub = cliprops.sub_oracles(ctx, res, failing, ["c07_fifo_case", "c07_complete_case", "c07_healed_case"], "c07s")
+    sub = cliprops.sub_oracles(ctx, res, failing, ["c07_fifo_case", "c07_complete_case", "c07_healed_case", "c07_marker_case"], "c07s")
 
     def sig_fn_idx(i):
         r = res[i][0]
@@ -122,7 +122,7 @@ def run(ctx):
         rep = {"replay_kind": "client_case", "case": cliprops.common.enc(cases[i])}
         if not o_ok:
             failed = [k for k, v in sub.get(i, {}).items() if not v]
-            violations.append({"sig": sig_fn_idx(i), "what": f"C07 oracle(s) {failed} false on case {i}: per-object order / expected-state caches / healing", **rep})
+            violations.append({"sig": sig_fn_idx(i), "what": f"C07 oracle(s) {failed} false on case {i}: per-object order / expected-state caches / healing / progress marker kept with the parked event", **rep})
         elif not c_ok:
             corr.append({"what": f"corr_client: client model != GenericClient on case {i}", **rep})
     hist, distinct = cliprops.stats(cases, res)
